@@ -237,6 +237,34 @@ def run(chk, tier):
             distinct.add(("unsat", s["id"]))
     chk.extra["unsat_programs_run"] = nun
     chk.nontrivial = len(distinct)
+    # ---- the meaning of connect at the boundary of the routed columns: refused, or enforced
+    cp = common.vh(["connectprobe"], binname=BIN, env={"RAYON_NUM_THREADS": "3"}, timeout=1200)[-1]["connectprobe"]
+    seen = {"enforced_routed": 0, "refused_advice": 0}
+    for x in cp:
+        chk.evaluations += 1
+        tag = "%d-%d/col%d" % (x["nw"], x["nr"], x["col"])
+        if x["outcome"] == "forgery_accepted":
+            chk.violation("C02/connect/unenforced/%s" % tag,
+                          "connect() accepted a wire, the circuit was built, and a proof in which the two connected targets hold different values was accepted by verify",
+                          {"connectprobe": x, "expected": "connect refuses a wire the permutation argument does not cover, or the equality is enforced"})
+        elif x["outcome"] == "enforced":
+            if x["routed"]:
+                seen["enforced_routed"] += 1
+                chk.traces += 1
+            else:
+                chk.note_drift({"connect_accepts_advice_column_but_enforces_it": x})
+        elif x["outcome"] == "refused":
+            if x["routed"]:
+                chk.violation("C02/connect/routed-wire-refused/%s" % tag, "connect() refused a routed wire: %s" % str(x.get("detail"))[:200],
+                              {"connectprobe": x, "expected": "routed wires can be connected"})
+            else:
+                seen["refused_advice"] += 1
+                chk.traces += 1
+        else:
+            chk.note_drift({"connectprobe_unexpected": x})
+    chk.extra["connect_boundary_probe"] = dict(seen, cases=len(cp))
+    if not chk.violations and not chk.drift and (seen["enforced_routed"] < 3 or seen["refused_advice"] < 6):
+        raise ToolError("vacuity: connect boundary probe covered too little: %s" % seen)
     # ---- binding canary: an accepted violating assignment must surface
     st = run_parallel(rows[:6], "c02_selftest", 2, 6, extra=["--selftest"])
     chk.canary("self-test: an (artificially) accepted violating assignment is reported",
